@@ -203,11 +203,13 @@ def part_escape(ctx):
             if why:
                 ctx.fail('escape,escape_html-markup', 'escape_html(%r) = %r: %s' % (s, o2, why), rep)
             try:
-                back = html.unescape(o1)
+                back, back2 = html.unescape(o1), html.unescape(o2)
             except Exception:  # noqa
-                back = None
+                back = back2 = None
             if back != s:
                 ctx.fail('escape,roundtrip', 'html.unescape(escape(%r)) = %r' % (s, back), rep)
+            elif back2 != s.replace('"', '').replace("'", ''):
+                ctx.fail('escape,escape_html-roundtrip', 'html.unescape(escape_html(%r)) = %r' % (s, back2), rep)
         # unescape correspondence on the image of escape followed by ampersand-free text
         tail = gen_string(ctx.rng).replace('&', '')
         u_in = o1 + tail
@@ -532,6 +534,25 @@ def base_requests():
     return out
 
 
+def fresh(path, pairs, i):
+    """the same request for a tile / map extent that is not in the cache yet (so that the upstream is asked)"""
+    x, y = i % 16, (i // 16) % 16
+    path = re.sub(r'/1/0/1(?=[./])', '/4/%d/%d' % (x, y), path)
+    out = []
+    for k, v in pairs:
+        kl = k.lower()
+        if kl == 'tilematrix':
+            v = '4'
+        elif kl == 'tilerow':
+            v = str(y)
+        elif kl == 'tilecol':
+            v = str(x)
+        elif kl == 'bbox' and v == '-10,-10,30,20':
+            v = '%d,%d,%d,%d' % (-170 + 20 * x, -80 + 9 * y, -150 + 20 * x, -65 + 9 * y)
+        out.append((k, v))
+    return path, out
+
+
 def enc_query(pairs, rng, raw_prob=0.0):
     from urllib.parse import quote
     parts = []
@@ -645,9 +666,10 @@ def requested_size(name, path, pairs):
         d.setdefault(k.lower(), v)
     if '.map' in name:
         try:
-            return int(float(d['width'])), int(float(d['height']))
+            w, h = int(float(d['width'])), int(float(d['height']))
         except (KeyError, ValueError, OverflowError):
             return None
+        return (w, h) if w >= 1 and h >= 1 else None       # an image of size 0 does not exist
     return None
 
 
@@ -671,8 +693,31 @@ def xml_document_problem(body, text):
     return None
 
 
+INIMAGE_CT = 'inimage,content-type-from-request'        # known finding signature (see known_findings.d/C18.json)
+VALID_IMAGE_TYPES = ('image/png', 'image/jpeg', 'image/gif', 'image/tiff', 'image/webp')
+
+
+def first_param(qs, key):
+    from urllib.parse import parse_qsl
+    # RequestParams joins repeated parameters with a comma
+    try:
+        vals = [v for k, v in parse_qsl(qs, True) if k.lower() == key]
+    except Exception:  # noqa
+        vals = []
+    return ','.join(vals) if vals else None
+
+
 def oracle_response(ctx, name, res, rep, req_size, base, skeletons, appdocs, recheck=None):
     sig = 'service=%s,' % name.split('.')[0]
+    if 'headers' in res and isinstance(res['headers'], list):
+        # F18c: the in-image exception handlers declare the raw FORMAT parameter as Content-type
+        fmt = first_param(rep['QUERY_STRING'], 'format')
+        exc = first_param(rep['QUERY_STRING'], 'exceptions') or ''
+        cts = [h[1] for h in res['headers'] if isinstance(h, tuple) and len(h) == 2 and str(h[0]).lower() == 'content-type']
+        if fmt is not None and cts == [fmt] and fmt.lower() not in VALID_IMAGE_TYPES and \
+                ('image' in exc.lower() or 'blank' in exc.lower()) and b''.join(c for c in res['chunks'] if isinstance(c, bytes))[:4] in (b'\x89PNG', b'GIF8', b'\xff\xd8\xff\xe0', b'\xff\xd8\xff\xdb'):
+            ctx.fail(INIMAGE_CT, 'in-image exception declares the unvalidated FORMAT parameter %r as Content-type of an image body' % fmt, rep)
+            return 'image'
     if 'raised' in res:
         ctx.fail(sig + 'wsgi-raised', 'the WSGI application raised %s' % res['raised'], rep)
         return 'raised'
@@ -822,6 +867,12 @@ def part_app(ctx, skeletons):
     stream = []
     for name, path, pairs in bases:                      # valid requests first
         stream.append((name, path, pairs, {}, None, 'valid', 'ok'))
+    k = 0
+    for name, path, pairs in bases:                      # valid requests whose upstream fails / answers garbage
+        for up in ('error', 'garbage'):
+            k += 1
+            p2, q2 = fresh(path, pairs, k)
+            stream.append((name, p2, q2, {}, None, 'valid', up))
     # corpus
     cdir = os.path.join(VERIF, 'corpus', 'C18')
     if os.path.isdir(cdir):
@@ -838,6 +889,8 @@ def part_app(ctx, skeletons):
     n = ctx.n(1100, 12000)
     for _ in range(n):
         name, path, pairs = ctx.rng.choice(bases)
+        if ctx.rng.random() < 0.4:
+            path, pairs = fresh(path, pairs, ctx.rng.randrange(256))
         p2, q2, h2, raw, what = mutate(ctx.rng, name, path, pairs)
         up = ctx.rng.choice(['ok', 'ok', 'ok', 'error', 'garbage'])
         stream.append((name, p2, q2, h2, raw, what, up))
